@@ -105,6 +105,10 @@ def case_superpose(col, p):
 
     thetas = [0.0, 1.0, 2.5]
     coefs = [(1.0, 1.0), (2.0, 0.5), (0.0, 1.0), (3.0, 0.25)]
+    if p.get('tiny'):
+        # magnitudes far from 1 (a tiny theta0, a tiny multiple of a density): linearity has no scale
+        thetas = [0.0, 1e-7, 1.0]
+        coefs = [(1e-8, 1.0), (1e-8, 0.0), (1.0, 1e-9)]
     old_tf = Integration.timescale_factor
     Integration.timescale_factor = p.get('tf', 0.02)        # 5-50 steps per integration instead of thousands (superposition is exact per step)
     try:
@@ -139,7 +143,7 @@ def _superpose_body(col, p, integrate, dense, thetas, coefs, shape, N, d):
             rhs = a * cache1[th1] + b * cache2[th2]
             col.tick(transitions=1)
             n += 1
-            sc = max(1.0, float(np.abs(rhs).max()))
+            sc = max(1.0, float(np.abs(rhs).max())) if not p.get('tiny') else max(float(np.abs(rhs).max()), 1e-300)
             err = float(np.abs(lhs - rhs).max())
             if not err <= 1e-11 * sc:
                 col.violation('C03:superposition:int%dD' % d, dict(p, unit=j, a=a, b=b, th1=th1, th2=th2), {'maxerr': err, 'scale': sc})
@@ -172,6 +176,13 @@ def case_init_lattice(col, p):
         if not np.isfinite(base).all():
             col.violation('C03:rescale:phi_1D_sel:not_finite', info, {'c': 1.0})
             continue
+        # proportional to theta0 (every entry, also the end points)
+        for fac in (2.0, 1e-6, 0.0):
+            scaled = dadi.PhiManip.phi_1D(xx, nu=nu, theta0=p['theta0'] * fac, gamma=gamma, h=h)
+            col.tick(transitions=1)
+            e_t = float(np.abs(scaled - fac * base).max()) / max(fac * float(np.abs(base).max()), 1e-300) if fac else float(np.abs(scaled).max())
+            if not e_t <= 1e-12:
+                col.violation('C03:superposition:phi_1D%s:not_proportional_to_theta0' % ('_sel' if gamma != 0 else ''), dict(info, factor=fac), {'relerr': e_t})
         for c in BIN_C + DEC_C:
             got = dadi.PhiManip.phi_1D(xx, nu=nu * c, theta0=p['theta0'] / c, gamma=gamma / c, h=h)
             col.tick(transitions=1)
@@ -258,6 +269,16 @@ def run(ctx):
                     if ctx.quick and d >= 4 and (lo // chunk) % 3 != 0:
                         continue
                     cases.append({'kind': 'superpose', 'd': d, 'G': G, 'grid': 'D', 'seed': seed, 'op': op, 'nomut': nomut, 'units': (lo, min(N, lo + chunk))})
+    # long epochs (the density relaxes to a steady state) at tiny magnitudes, constant and time-dependent parameters
+    for d in (1, 2):
+        G = Gd[d]
+        for T_long in (5.0,):
+            for timedep in (False, True):
+                sizes = [1.0, 2.0][:d]
+                if timedep:
+                    sizes = [['exp', 1.0, 1.0]] + sizes[1:]
+                op = ['int', T_long, sizes, [], [0.0] * d, [0.5] * d, [0] * d]
+                cases.append({'kind': 'superpose', 'd': d, 'G': G, 'grid': 'D', 'seed': seed, 'op': op, 'nomut': None, 'units': (0, min(G ** d, 6)), 'tiny': True, 'tf': 0.05})
     from mc.evidence import Collector
     a, b = Collector(), Collector()
     _dispatch(a, cases[0]); _dispatch(b, cases[0])
